@@ -126,11 +126,13 @@ func H_C14_errors() {
 	bad := []string{
 		`{{ x | f: a }}`, `{{ x | f(a, b, a) }}`, `{{ f(a) }}`, `{{ g(a, nilv) }}`, `{{ nilv | h }}`,
 		`{{ x | g(_, _) }}`, `{{ g(a, _) }}`, `{{ r.M(a) }}`, `{{ v() }}`, `{{ x | h(a) }}`,
+		`{{ nilv | v(a, _) }}`, `{{ nilv | vv(_) }}`, `{{ mp | vv(a, _) }}`, `{{ nilv | vv }}`, `{{ vv(a, nilv) }}`,
 	}
 	c := ndChoice("case", len(bad))
 	set := hxSet(nil, "/m.jet", bad[c])
 	vars := c14Vars("x", "a", "b")
 	vars.Set("nilv", nil)
+	vars.Set("mp", map[string]int{})
 	_, err := hxExec(set, "/m.jet", vars, nil)
 	vfReach("failed")
 	vfAssert(err != nil, "a malformed call is an error")
@@ -156,10 +158,21 @@ func H_C14_conversion() {
 	vars.Set("wantI32", func(i int32) string { gotI32 = i; return "" })
 	vars.Set("wantI", func(i int) string { gotI = i; return "" })
 	vars.Set("wantTail", func(s string, fs ...float64) string { gotTail = fs; return "" })
-	set := hxSet(nil, "/m.jet", `{{ wantF(n) }}{{ wantI32(n) }}{{ wantI(fv) }}{{ wantTail("s", n, fv) }}{{ n | wantF }}`)
+	// the piped value in a slot is converted like an argument written there, in the
+	// variadic tail as well
+	var slotTail, slotTail2 []float64
+	var slotInts []int
+	vars.Set("slotTail", func(s string, fs ...float64) string { slotTail = fs; return "" })
+	vars.Set("slotTail2", func(fs ...float64) string { slotTail2 = fs; return "" })
+	vars.Set("slotInts", func(is ...int) string { slotInts = is; return "" })
+	vars.Set("i8", int8(3))
+	set := hxSet(nil, "/m.jet", `{{ wantF(n) }}{{ wantI32(n) }}{{ wantI(fv) }}{{ wantTail("s", n, fv) }}{{ n | wantF }}`+
+		`{{ n | slotTail("s", _, fv) }}{{ n | slotTail2(_) }}{{ 3 | slotInts(1, _, i8) }}`)
 	_, err := hxExec(set, "/m.jet", vars, nil)
 	vfReach("called")
 	vfAssert(err == nil, "calls succeed")
+	vfAssert(len(slotTail) == 2 && slotTail[0] == float64(n) && len(slotTail2) == 1 && slotTail2[0] == float64(n), "a slot in the variadic tail is converted element-wise")
+	vfAssert(len(slotInts) == 3 && slotInts[0] == 1 && slotInts[1] == 3 && slotInts[2] == 3, "number literals and small integers in the tail are converted to the element type")
 	vfAssert(gotF == float64(n), "int converted to float64")
 	vfAssert(gotI32 == int32(n), "int64 converted to int32")
 	vfAssert(gotI == int(fv), "float64 converted to int (truncation)")
@@ -322,7 +335,13 @@ func H_C14_builtins() {
 	case "array":
 		src, want = `{{ s2 := array(s, "z") }}{{ s2[0] }}{{ s2[1] }}{{ len(s2) }}`, s+"z2"
 	case "html":
-		src, want = `{{ html(s) | raw }}`, string(refEscNoNul([]byte(s)))
+		// any ASCII byte, control characters and NUL included: only the five special ones change
+		h := ndString("h", 2)
+		for i := 0; i < len(h); i++ {
+			vfAssume(h[i] < 0x80)
+		}
+		s = h
+		src, want = `{{ html(s) | raw }}|{{ s | html | raw }}`, string(refEscNoNul([]byte(h)))+"|"+string(refEscNoNul([]byte(h)))
 	default:
 		src, want = `{{ url("a b&c") }}`, "a+b%26c"
 	}
